@@ -8,8 +8,13 @@ EXTENDS Colour
 CONSTANT Stride
 VARIABLE c
 Curves == {"srgb", "adobergb", "prophotorgb"}
-Init == c = 0
-Next == c + Stride <= 65535 /\ c' = c + Stride
+\* the grid 0, Stride, 2 Stride, ... is walked in blocks of 64 points, each block from its own initial
+\* state: a single chain of 65,536 states keeps one TLC worker busy for ~40 min, 1,024 chains all 16
+Block == 64
+Init == \E b \in 0..(65535 \div (Stride * Block)) : c = b * Stride * Block
+Next == /\ c + Stride <= 65535
+        /\ ((c \div Stride) + 1) % Block # 0
+        /\ c' = c + Stride
 Spec == Init /\ [][Next]_c
 Lemmas ==
     /\ \A cv \in Curves : CurveBelowIdentity(cv, c)
